@@ -31,6 +31,10 @@ def gen(cls, n):
     if cls == "period259":
         unit = bytes(range(256)) + b"xyz"
         return (unit * (n // 259 + 1))[:n]
+    if cls == "period4099-text":
+        # a compressible unit repeated at a distance of several KiB: the compressed message is far shorter than its back-reference distances
+        unit = b"".join(b"%04d: entry of the audit log, user=%d ok\n" % (i, i * 7919 % 1000) for i in range(200))[:4099]
+        return (unit * (n // 4099 + 1))[:n]
     out = bytearray()
     i = 0
     while len(out) < n:
@@ -44,7 +48,8 @@ def lengths():
         near = list(range(255700, 256301))
     else:
         near = sorted(set(range(255990, 256011)) | set(range(255700, 256301, 5)) | {256257, 256258, 256259, 256100, 256200})
-    return [0, 1, 2, 255, 256, 1024, 65536, 131072] + near + [300000, 512000]
+    # 65535 is the longest stored block (RFC 1951 3.2.4): its multiples and their neighbours; 32 KiB is the window
+    return [0, 1, 2, 255, 256, 1024, 32768, 32769, 40000, 65534, 65535, 65536, 100000, 131070, 131072, 196605, 200000] + near + [300000, 512000]
 
 
 def h_small(ctx):
@@ -54,13 +59,13 @@ def h_small(ctx):
 
 
 def h_roundtrip(ctx, small=None):
-    cls = ctx.choose("class", ["constant", "period7", "period259", "sha-stream"] if small is None else ["sha-stream", "period259"])
+    cls = ctx.choose("class", ["constant", "period7", "period259", "period4099-text", "sha-stream"] if small is None else ["sha-stream", "period259"])
     enc = ctx.choose("enc", ["A128GCM", "A128CBC-HS256"] + (["XC20P"] if config.thorough() else []) if small is None else ["A128GCM"])
     form = ctx.choose("form", (["compact", "flattened"] if not config.thorough() else ["compact", "flattened", "general"]) if small is None else ["compact"])
     if small is not None:
         n = ctx.choose("length", small)
     else:
-        n = ctx.choose("length", lengths() if (cls != "sha-stream" or config.thorough()) else [x for x in lengths() if x % 10 == 0 or 255995 <= x <= 256005])
+        n = ctx.choose("length", lengths() if (cls != "sha-stream" or config.thorough()) else [x for x in lengths() if x % 10 == 0 or x % 65535 == 0 or 255995 <= x <= 256005])
     scen.register_drafts()
     kind = "oct%d" % ENC[enc][1]
     jwk = scen.key(kind)
